@@ -54,3 +54,45 @@ func vh_C15_clientip() {
 		verifAssert("C15.clientip.connection-address-without-parser", err == nil && got.Equal(net.IPv4(127, 0, 0, 1)))
 	}
 }
+
+// the real X-Forwarded-For style parser on the header shapes proxies really send: the client is
+// the first list element, with or without a space after the comma, with or without a port,
+// IPv4 or bracketed IPv6; garbage is an error, an absent header no address
+// verif: unwind=8 strlen=8
+func vh_C15_xff_parser() {
+	type tc struct {
+		header string
+		ip     net.IP
+		bad    bool
+	}
+	cases := []tc{
+		{"10.1.2.77", net.IPv4(10, 1, 2, 77), false},
+		{"10.1.2.77, 192.0.2.10", net.IPv4(10, 1, 2, 77), false},
+		{"10.1.2.77,192.0.2.10", net.IPv4(10, 1, 2, 77), false},
+		{" 10.1.2.77 ,192.0.2.10", net.IPv4(10, 1, 2, 77), false},
+		{"10.1.2.77:4711, 192.0.2.10", net.IPv4(10, 1, 2, 77), false},
+		{"[2001:db8::1]:443", net.ParseIP("2001:db8::1"), false},
+		{"2001:db8::1,10.0.0.1", net.ParseIP("2001:db8::1"), false},
+		{"unknown, 10.0.0.1", nil, true},
+		{"", nil, false},
+	}
+	c := cases[ndChoice("header-shape", len(cases))]
+	p, err := GetRealClientIPParser("X-Forwarded-For")
+	verifAssert("C15.xff.parser-available", err == nil && p != nil)
+	h := http.Header{}
+	if c.header != "" {
+		h["X-Forwarded-For"] = []string{c.header}
+	}
+	got, gerr := p.GetRealClientIP(h)
+	switch {
+	case c.bad:
+		verifReach("garbage")
+		verifAssert("C15.xff.garbage-is-an-error", gerr != nil && got == nil)
+	case c.ip == nil:
+		verifReach("absent")
+		verifAssert("C15.xff.absent-header-no-address", gerr == nil && got == nil)
+	default:
+		verifReach("address")
+		verifAssert("C15.xff.first-element-is-the-client", gerr == nil && got.Equal(c.ip))
+	}
+}
